@@ -4,6 +4,7 @@ C02/C01 assembly at commitment time, program side: on the plan converted from a 
 `Prog.encode` in commit mode re-traces the list.
 -/
 import SimplicityModel.Prog.CommitProps
+import SimplicityModel.Prog.RoundtripProps
 set_option linter.unusedSimpArgs false
 namespace Prog
 open Wire PO
@@ -295,7 +296,58 @@ theorem decodeCommit_facts (tb : Tables) (prog : List Bool) (p : Plan) (cm : Arr
   obtain ⟨F, hw, hpos, hroot⟩ := decFacts0_mk tb.nameOf ns p an hne hok hcv hansz
   exact ⟨ns, rest, arrows, an, hprog, hcl, hne, hlt, hok, hcv, F, hw, hpos, hroot, hcan, hinf, han, hsh, hcm⟩
 
+/-- what makes a plan with arrows, commitment-time annotations and commitment roots a program *in the
+commitment-time decoder's canonical form*, witnessed by the wire node list `N`: `N` is a well-formed
+node list in canonical order whose conversion is the plan; no disconnect node has both children; the
+plan is well typed as a 1 → 1 program with these arrows; the annotations and commitment roots are
+those of the plan; the sharing check `is_shared_as::<MaxSharing>` passes; the root's identity root is
+fresh. -/
+structure CanonicalCommitPlan (tb : Tables) (N : List (WNode tb.J)) (p : Plan)
+    (arrows : Array (BM4.Ty × BM4.Ty)) (an : Array Annot) (cm : Array Nat) : Prop where
+  nodes_ne : N ≠ []
+  nodes_lt : N.length < 2 ^ 32
+  nodes_ok : NodesOk 0 N
+  canonical : canonicalOk N.toArray = true
+  conv : convert tb.nameOf N.toArray = .ok p
+  no_bin_disc : noBinDisc p = true
+  typed : infer tb.jetTy p true = .ok arrows
+  annots : annots tb.jetCmr tb.jetCost p arrows (fun _ => none) = some an
+  shared : sharedOk p an = true
+  root_fresh : rootFresh p an = true
+  cmrs : cmrs tb.jetCmr p = some cm
+
+/-- **commitment-time round trip, assembled** (about the functions the driver runs): for a program
+in canonical form the commit-mode encoder writes the node list `N`, and `decodeCommit` accepts these
+bytes and returns the same plan and the same commitment roots. -/
+theorem roundtrip_commit_canonical (tb : Tables) (hof : ∀ j, tb.ofName (tb.nameOf j) = some j)
+    (N : List (WNode tb.J)) (p : Plan) (arrows : Array (BM4.Ty × BM4.Ty)) (an : Array Annot)
+    (cm : Array Nat) (H : CanonicalCommitPlan tb N p arrows an cm) (wit : Nat → Option (List Bool)) :
+    encode tb.jc tb.ofName p an false wit =
+      some (padToByte (encProgram tb.jc N), padToByte ((wIdx p.toList 0).filterMap wit).flatten) ∧
+    decodeCommit tb (padToByte (encProgram tb.jc N)) = .ok (p, cm) := by
+  have hansz := annots_size _ _ _ _ _ _ H.annots
+  obtain ⟨F, hw, hpos, hroot⟩ := decFacts0_mk tb.nameOf N p an H.nodes_ne H.nodes_ok H.conv hansz
+  refine ⟨encode_converted_commit tb.jc F hof H.no_bin_disc hw hpos hroot H.canonical H.root_fresh
+    H.shared wit, ?_⟩
+  refine decodeCommit_intro tb _ N (List.replicate ((8 - (encProgram tb.jc N).length % 8) % 8) false)
+    p arrows an cm ?_ (closeOk_replicate _ (by omega)) H.nodes_ne H.canonical H.conv H.typed H.annots
+    H.shared H.cmrs
+  unfold padToByte
+  exact decProgram_encProgram tb.jc N H.nodes_ne H.nodes_lt H.nodes_ok _
+
+/-- whatever `decodeCommit` returns is in canonical form, provided no disconnect node has both
+children and the root's identity root is fresh -/
+theorem decodedCommit_is_canonical (tb : Tables) (prog : List Bool) (p : Plan) (cm : Array Nat)
+    (h : decodeCommit tb prog = .ok (p, cm)) :
+    ∃ N arrows an, infer tb.jetTy p true = .ok arrows ∧
+      annots tb.jetCmr tb.jetCost p arrows (fun _ => none) = some an ∧
+      (noBinDisc p = true → rootFresh p an = true → CanonicalCommitPlan tb N p arrows an cm) := by
+  obtain ⟨ns, rest, arrows, an, _, _, hne, hlt, hok, hcv, _, _, _, _, hcan, hinf, han, hsh, hcm⟩ :=
+    decodeCommit_facts tb prog p cm h
+  exact ⟨ns, arrows, an, hinf, han, fun hnb hf => ⟨hne, hlt, hok, hcan, hcv, hnb, hinf, han, hsh, hf, hcm⟩⟩
+
 #print axioms encode_converted_commit
+#print axioms roundtrip_commit_canonical
 #print axioms decodeCommit_intro
 
 end Prog
